@@ -38,15 +38,26 @@ def check_queries(case):
     try:
         ta.clearCache()
         tb.clearCache()
-        dga, xpa = ta.getDrivingForce(x, T, precPhase=ph, removeCache=True)
-        dgb, xpb = tb.getDrivingForce(xr, T, precPhase=ph, removeCache=True)
+        method = case.get("method", "tangent")
+        try:
+            # the shared objects are built with the default method; the other three documented methods are selected through the setter
+            ta.setDrivingForceMethod(method)
+            tb.setDrivingForceMethod(method)
+            dga, xpa = ta.getDrivingForce(x, T, precPhase=ph, removeCache=True)
+            dgb, xpb = tb.getDrivingForce(xr, T, precPhase=ph, removeCache=True)
+        finally:
+            ta.setDrivingForceMethod("tangent")
+            tb.setDrivingForceMethod("tangent")
         if dga is not None and dgb is not None and np.all(np.isfinite([dga, dgb])):
-            rt, at = (5e-2, 1.5) if ordered else (1e-6, 1e-3)
+            # tangent on the order/disorder pair: each object converges its own ordered equilibrium (measured spread); the other
+            # methods evaluate fixed point sets / one matrix equilibrium and agree to 1e-9 (measured 4e-9 relative at most)
+            loose = ordered and method == "tangent"
+            rt, at = (5e-2, 1.5) if loose else (1e-6, 1e-3)
             if not _close(dga, dgb, rt, at):
-                out.fail("driving_force_order_dependent", "%s %s x=%r T=%r: driving force %r with solutes listed one way, %r the other way" % (name, ph, x.tolist(), T, float(dga), float(dgb)))
-            if not _close(np.atleast_1d(xpa)[::-1], np.atleast_1d(xpb), 0, 1e-2 if ordered else 1e-6):
-                out.fail("nucleus_composition_not_permuted", "%s %s x=%r T=%r: precipitate composition %r vs %r (should be the reverse)" % (name, ph, x.tolist(), T, np.atleast_1d(xpa).tolist(), np.atleast_1d(xpb).tolist()))
-            out.label("df_compared")
+                out.fail("driving_force_order_dependent", "%s %s x=%r T=%r method %s: driving force %r with solutes listed one way, %r the other way" % (name, ph, x.tolist(), T, method, float(dga), float(dgb)))
+            if xpa is not None and xpb is not None and not _close(np.atleast_1d(xpa)[::-1], np.atleast_1d(xpb), 0, 1e-2 if loose else 1e-6):
+                out.fail("nucleus_composition_not_permuted", "%s %s x=%r T=%r method %s: precipitate composition %r vs %r (should be the reverse)" % (name, ph, x.tolist(), T, method, np.atleast_1d(xpa).tolist(), np.atleast_1d(xpb).tolist()))
+            out.label("df_compared", "df_" + method)
         Da = np.array(ta.getInterdiffusivity(x, T, removeCache=True), dtype=float)
         Db = np.array(tb.getInterdiffusivity(xr, T, removeCache=True), dtype=float)
         if not _close(Da[::-1, ::-1], Db, 1e-6, 1e-9 * np.max(np.abs(Da))):
@@ -161,7 +172,8 @@ def check_diffusion_run(case):
 def _q(draw):
     name = draw(st.sampled_from(["nicral", "nicral", "almgsi"]))
     _, _, precs, rng, Tr, _ = PAIRS[name]
-    return {"system": name, "x": [draw(st.floats(*rng[0])), draw(st.floats(*rng[1]))], "T": draw(st.floats(*Tr)), "phase": draw(st.integers(0, 4))}
+    return {"system": name, "x": [draw(st.floats(*rng[0])), draw(st.floats(*rng[1]))], "T": draw(st.floats(*Tr)), "phase": draw(st.integers(0, 4)),
+            "method": draw(st.sampled_from(["tangent", "tangent", "approximate", "sampling", "curvature"]))}
 
 
 @st.composite
@@ -180,7 +192,7 @@ def _d(draw):
 def clauses():
     return [
         Clause("element_order_queries", _q, check_queries, quick=120, thorough=6000, shrink=False,
-               rule="generator: Ni-Cr-Al (gamma prime, solutes listed as [CR,AL] and [AL,CR]) and Al-Mg-Si (five stoichiometric phases, [MG,SI] and [SI,MG]) compositions/temperatures; driving force and nucleus composition, interdiffusivity, tracer diffusivity and curvature factors evaluated on one thermodynamics object per order with caches discarded; outputs must be equal after applying the permutation"),
+               rule="generator: Ni-Cr-Al (gamma prime, solutes listed as [CR,AL] and [AL,CR]) and Al-Mg-Si (five stoichiometric phases, [MG,SI] and [SI,MG]) compositions/temperatures; driving force and nucleus composition (by the tangent, approximate, sampling or curvature method, selected through setDrivingForceMethod), interdiffusivity, tracer diffusivity and curvature factors evaluated on one thermodynamics object per order with caches discarded; outputs must be equal after applying the permutation"),
         Clause("element_order_mobility", _m, check_mobility, quick=120, thorough=6000, shrink=False,
                rule="generator: Ni-Cr-Al and Fe-Cr-Ni (fcc+bcc) points with both solute orders: per-phase mobilities, phase fractions, chemical potentials and the five homogenization rules must be permuted accordingly"),
         Clause("element_order_diffusion_run", _d, check_diffusion_run, quick=12, thorough=300, shrink=False,
